@@ -16,6 +16,7 @@ PAT = {
     'assume_specification': re.compile(r'\bassume_specification\b'),
     'assume': re.compile(r'\bassume\s*\('),
     'admit': re.compile(r'\badmit\s*\('),
+    'derived_impl': re.compile(r'^#type .*\b(derive-eq|derive-clone)\b', re.M),
 }
 
 
@@ -27,6 +28,11 @@ def strip_comments(text):
 
 def scan_vc(path):
     raw = open(path).read()
+    # inline #include files so that their assumptions are counted with the unit
+    def _inc(m):
+        ip = os.path.join(os.path.dirname(os.path.abspath(path)), m.group(1).strip())
+        return open(ip).read() if os.path.exists(ip) else ''
+    raw = re.sub(r'^#include\s+(\S+)\s*$', _inc, raw, flags=re.M)
     decl = {}
     m = re.search(r'^## assumptions:(.*)$', raw, re.M)
     if m:
